@@ -174,6 +174,34 @@ C01_Carries(e, p, m, m2, M) ==
   C01_Carries_Ante(e, p, m, m2, M) => \A i \in 1..3 : e.a.ax[i].k = "n" => m2.known[AxSeq[i]]
 
 -----------------------------------------------------------------------------
+(* Beyond the listed properties: the conversion queries to_absolute(),      *)
+(* to_distance_mode(), to_absolute_list() (the tracer is built on them; C11  *)
+(* rests on them).  As their docstrings say: an unknown coordinate of the   *)
+(* current position counts as 0; in absolute mode a given coordinate is the  *)
+(* target and an omitted one keeps the current value, in relative mode the   *)
+(* given coordinates are offsets; to_distance_mode() goes the other way.     *)
+(* They write nothing and change nothing.                                    *)
+CV_Calls == {"to_absolute", "to_distance_mode", "to_absolute_list"}
+NumOr0(q) == IF q.k = "n" THEN q.v ELSE 0
+CV_Cur(p) == [i \in 1..3 |-> NumOr0(p.pos[i])]
+CV_Abs(cur, rel, ax) ==
+  [i \in 1..3 |-> IF rel THEN cur[i] + NumOr0(ax[i]) ELSE IF ax[i].k = "n" THEN ax[i].v ELSE cur[i]]
+RECURSIVE CV_List(_, _, _)
+CV_List(cur, rel, pts) ==
+  IF pts = <<>> THEN <<>> ELSE LET t == CV_Abs(cur, rel, Head(pts)) IN <<t>> \o CV_List(t, rel, Tail(pts))
+CV_Near(got, want, tol) == \A i \in 1..3 : Abs(got[i] - want[i]) <= tol
+CV_Convert(e, p, m, m2, M) ==
+  (e.call \in CV_Calls /\ e.out = "ok") =>
+    LET cur == CV_Cur(p)  tol == IF M.exact THEN 0 ELSE 2 IN
+    CASE e.call = "to_absolute" -> Len(e.conv) = 1 /\ CV_Near(e.conv[1], CV_Abs(cur, p.rel, e.a.ax), tol)
+      [] e.call = "to_distance_mode" ->
+           Len(e.conv) = 1 /\ CV_Near(e.conv[1], [i \in 1..3 |-> NumOr0(e.a.ax[i]) - (IF p.rel THEN cur[i] ELSE 0)], tol)
+      [] OTHER ->
+           LET want == CV_List(cur, p.rel, e.pts) IN
+           Len(e.conv) = Len(want) /\ \A k \in DOMAIN want : CV_Near(e.conv[k], want[k], tol + k)
+CV_Pure(e, p, m, m2, M) == e.call \in CV_Calls => (e.out = "ok" /\ e.lines = <<>> /\ e.rep = p)
+
+-----------------------------------------------------------------------------
 (* C02 -- interlocks                                                        *)
 \* machine states around every line of a call, computed once: PrefixStates(m, lines)[i] is the state before line i
 PrefixStates(m, lines) == FoldLeft(LAMBDA acc, ln : Append(acc, ExecLine(acc[Len(acc)], ln.ws)), <<m>>, lines)
